@@ -7,6 +7,7 @@ import ast
 from fractions import Fraction
 
 from .. import pyfe, pya, ir
+from .. import pysym as _ps
 from ..core import AnalysisError
 
 AVOGADRO = Fraction("6.02214076e23")
@@ -175,11 +176,22 @@ def rule_derived(ctx, py):
     for c in pyfe.calls_in(f):
         if pyfe.call_name(c) == "addunit" and len(c.args) == 3:
             calls.add(tuple(pysym.isrc(a_, f).replace(" ", "").replace('"', "'") for a_ in c.args))
-    ctx.check(("'space'", "get_volume_fundamental_unit(b[1])", "b[2]*3") in calls, R, f, f._qual,
-              "volume symbol: length exponent 3*e", "", "litre family exponent wrong")
-    ctx.check(("'space'", "get_concentration_fundamental_units(b[1])[1]", "b[2]*-3") in calls and
-              ("'quantity'", "get_concentration_fundamental_units(b[1])[0]", "b[2]") in calls, R, f, f._qual,
-              "molar symbol: length exponent -3*e, amount exponent e", "", "molar family exponents wrong")
+    # the label / exponent expressions are whatever the plain base-unit call uses: addunit(<kind>, L, E)
+    base = [c_ for c_ in calls if "get_volume_fundamental_unit" not in c_[1] and "get_concentration_fundamental_units" not in c_[1]]
+    ctx.need(base, R, "parse_units: the base-unit addunit(kind, label, exponent) call is not found")
+    L_, E_ = base[0][1], base[0][2]
+    volc = [c_ for c_ in calls if "get_volume_fundamental_unit" in c_[1]]
+    denc = [c_ for c_ in calls if "get_concentration_fundamental_units" in c_[1]]
+    ctx.need(volc and denc, R, "parse_units: the litre / molar addunit calls are not found")
+
+    def mul(e, k):
+        return {e + "*" + k, k + "*" + e, "(" + e + ")*" + k}
+    ctx.check(any(c_[0] == "'space'" and c_[1] == "get_volume_fundamental_unit(%s)" % L_ and c_[2] in mul(E_, "3") for c_ in volc),
+              R, f, f._qual, "volume symbol: length exponent 3*e", "", "litre family exponent wrong")
+    ctx.check(any(c_[0] == "'space'" and c_[1] == "get_concentration_fundamental_units(%s)[1]" % L_ and c_[2] in mul(E_, "-3")
+                  for c_ in denc) and
+              any(c_[0] == "'quantity'" and c_[1] == "get_concentration_fundamental_units(%s)[0]" % L_ and c_[2] == E_ for c_ in denc),
+              R, f, f._qual, "molar symbol: length exponent -3*e, amount exponent e", "", "molar family exponents wrong")
     ctx.floor(R, 18)
     return vol, con
 
@@ -350,7 +362,8 @@ def rule_dimguard(ctx, py):
                       "(else raise)", "a target of a different dimension is accepted: the value is converted with the "
                       "wrong exponents")
         rets = [r for r in ast.walk(f) if isinstance(r, ast.Return)]
-        src = pyfe.src(rets[-1].value).replace(" ", "")
+        from .. import pysym as _ps
+        src = _ps.isrc(rets[-1].value, f, stop={"su_dst"}).replace(" ", "")     # named temporaries written out
         okk = ("convert_value(%s.value,%s.units.sys,su_dst,%s)" % (v, v, selfdim) in src and
                "Units(su_dst,%s)" % selfdim in src)
         ctx.check(okk, R, rets[-1], q, pyfe.src(rets[-1])[:100], "number converted source -> destination with the source "
@@ -500,6 +513,10 @@ def rule_convert_args(ctx, py, R="C06.ARGS"):
                 args = [None] + args
             if any(a is None for a in args[1:]):
                 continue
+            # named temporaries (`su_src, sdim = v.units.sys, v.units.dim`) are written out; the destination keeps its name
+            keep = {a.arg for a in f.args.args} | {"su_dst"}
+            args = [a if a is None else _ps.inline(a, f, stop=keep) for a in args[:2]] + args[2:3] + \
+                   [_ps.inline(args[3], f, stop=keep)]
             val, src_, dst_, dim_ = args
             owner = None
             t = pyfe.src(dim_)
